@@ -706,3 +706,27 @@ Proof.
   - apply nonnull_nil_len in E. rewrite E. reflexivity.
   - destruct (nonnull (slice xs s e)) eqn:En; [exfalso; apply E; reflexivity|reflexivity].
 Qed.
+
+(* the frame computed earlier on a SHORTER buffer (BoundedWindowAggExec: fewer rows had arrived) is also a valid
+   resume point *)
+Lemma nth_firstn_lt {A} (l : list A) d : forall m j, (j < m)%nat -> nth j (firstn m l) d = nth j l d.
+Proof.
+  induction l as [|x l IH]; intros m j H; [rewrite firstn_nil; reflexivity|].
+  destruct m as [|m]; [lia|]. destruct j as [|j]; [reflexivity|]. cbn [firstn nth]. apply IH. lia.
+Qed.
+
+Lemma delimits_resume_prefix f ps m i' i s e :
+  sorted_pos ps -> (i' < m <= length ps)%nat -> (i' <= i < length ps)%nat -> delimits f (firstn m ps) i' s e ->
+  (forall j, (j < s)%nat -> ext_lt (nth j ps PInf) (lo_of (fstart f) (nth i ps PInf)) = true) /\
+  (forall j, (j < e)%nat -> ext_le (nth j ps PInf) (hi_of (fend f) (nth i ps PInf)) = true).
+Proof.
+  intros Hsrt Hm Hi (Hs & He & H). rewrite firstn_length_le in Hs, He, H by lia.
+  assert (Hp : ext_le (nth i' ps PInf) (nth i ps PInf) = true) by (apply Hsrt; lia).
+  rewrite (nth_firstn_lt ps PInf m i') in H by lia.
+  split; intros j Hj.
+  - assert (Hjm : (j < m)%nat) by lia. destruct (H j Hjm) as [A _]. rewrite nth_firstn_lt in A by exact Hjm.
+    eapply ext_lt_le_trans; [|apply lo_of_mono; exact Hp].
+    apply ext_lt_false_le. intros E. apply A in E. lia.
+  - assert (Hjm : (j < m)%nat) by lia. destruct (H j Hjm) as [_ B]. rewrite nth_firstn_lt in B by exact Hjm.
+    eapply ext_le_trans; [apply B; exact Hj|]. apply lo_of_mono; exact Hp.
+Qed.
